@@ -183,7 +183,7 @@ pub enum Vals {
 impl Case {
     pub fn values(&self) -> Vec<f32> {
         match &self.vals {
-            Vals::Seeded { stratum, seed, n } => match stratum % 8 {
+            Vals::Seeded { stratum, seed, n } => match stratum % 9 {
                 6 => {
                     // feedback chain: each value is the library's own result for the previous one, so that
                     // neighbouring components in memory are (input, previous output) pairs
@@ -194,6 +194,24 @@ impl Case {
                         v.push(x);
                         let y = lib_apply(self.t, self.dir, &[x]).ok().map(|o| o[0]).unwrap_or(f32::NAN);
                         x = if y.is_finite() && (0.0..=1.0).contains(&y) && i % 16 != 15 { y } else { e.unit() as f32 };
+                    }
+                    v
+                }
+                8 => {
+                    // one-sided image with outliers at its ends: everything in the upper (or lower) part of the
+                    // range except the first / last few samples (whole-buffer pre-scans must look at every sample)
+                    let mut e = Expand(*seed);
+                    let n = (*n).max(8) * 11 + 4099 + e.below(7) as usize;
+                    let high = e.below(2) == 0;
+                    let mut v: Vec<f32> = (0..n).map(|_| if high { e.range_f64(0.3, 1.0) as f32 } else { e.range_f64(0.0, 0.002) as f32 }).collect();
+                    let k = 1 + e.below(7) as usize;
+                    for i in 0..k {
+                        let o = if high { e.range_f64(0.0, 0.002) as f32 } else { e.range_f64(0.3, 1.0) as f32 };
+                        if e.below(4) == 0 {
+                            v[i] = o;
+                        } else {
+                            v[n - 1 - i] = o;
+                        }
                     }
                     v
                 }
@@ -247,12 +265,12 @@ impl Case {
 }
 
 pub fn strategy() -> BoxedStrategy<Case> {
-    (sup_transfer(), any::<bool>(), 0u8..8, any::<u64>(), 1usize..=768, prop::bool::weighted(0.25))
+    (sup_transfer(), any::<bool>(), 0u8..9, any::<u64>(), 1usize..=768, prop::bool::weighted(0.25))
         .prop_map(|(t, d, stratum, seed, n, mates)| Case {
             t,
             dir: if d { Dir::ToLinear } else { Dir::ToGamma },
-            vals: Vals::Seeded { stratum, seed, n: if stratum % 8 == 6 { n.min(96) } else { n } },
-            mates: if mates { Some(seed) } else { None },
+            vals: Vals::Seeded { stratum, seed, n: if stratum % 9 == 6 { n.min(96) } else { n } },
+            mates: if mates && stratum % 9 != 8 { Some(seed) } else { None },
         })
         .boxed()
 }
@@ -347,7 +365,7 @@ pub fn check_named(prop: &str, case: &Case, st: &mut Stats) -> Result<(), Violat
     st.class(&format!("curve_{}", tc_name(t)), 1);
     st.class(if d == Dir::ToLinear { "dir_to_linear" } else { "dir_to_gamma" }, 1);
     if let Vals::Seeded { stratum, .. } = case.vals {
-        st.class(&format!("stratum_{}", stratum % 8), 1);
+        st.class(&format!("stratum_{}", stratum % 9), 1);
         if case.mates.is_some() {
             st.class("with_out_of_range_pixel_mates", 1);
         }
@@ -418,10 +436,11 @@ pub fn large_images(ctx: &Ctx, st: &mut Stats, prop: &'static str, chk: fn(&str,
         }
     }
     let seed0 = ctx.seed;
+    let ctx_quick = ctx.quick();
     par_sweep(ctx, st, jobs.len() as u64, |lo, hi, st| {
         for j in lo..hi {
             let (t, d) = jobs[j as usize];
-            let pixels = [65_537usize, 131_101, 262_147][(j % 3) as usize];
+            let pixels = if ctx_quick { [65_537usize, 131_101, 262_147, 4_194_307][(j % 4) as usize] } else { [65_537usize, 262_147, 4_194_307, 8_300_401][(j % 4) as usize] };
             let case = Case { t, dir: d, vals: Vals::Seeded { stratum: (j % 2) as u8, seed: mix64(seed0 ^ j ^ 0xB16), n: pixels * 3 }, mates: None };
             let mut local = Stats::new();
             local.sample_budget = 0;
@@ -461,4 +480,4 @@ pub fn replay(v: &Value) -> Result<(), String> {
     check(&case, &mut Stats::new()).map_err(|v| v.message)
 }
 
-pub const RULE: &str = "cases = (curve in 14 supported, direction, batch of 1..768 values of [0,1] from 8 strata: uniform value, uniform bit pattern, +-64 ulp around every curve threshold, powers of two +-4 ulp, subnormal/tiny, dense below 1, feedback chain (each value is the library's result for the previous one), runs of repeated values; in a quarter of the cases each checked value sits in a pixel whose other two components are out-of-range mates) generated by proptest, plus one image of 65537 / 131101 / 262147 pixels per curve and direction, plus a strided (quick) or complete (thorough) enumeration of all f32 in [0,1] in blocks of 65536; each value compared with the f64 defining formula (tol 2.5e-4; PQ to_gamma 5.7e-4; builds without fastmath 5e-5), Linear and BT.1886 aliases compared bitwise; non-trivial = batch containing a value strictly inside (0,1); distinct = by hash of (curve, direction, value bits)";
+pub const RULE: &str = "cases = (curve in 14 supported, direction, batch of 1..768 values of [0,1] from 8 strata: uniform value, uniform bit pattern, +-64 ulp around every curve threshold, powers of two +-4 ulp, subnormal/tiny, dense below 1, feedback chain (each value is the library's result for the previous one), runs of repeated values, one-sided images of 4100+ samples with outliers at their ends; in a quarter of the cases each checked value sits in a pixel whose other two components are out-of-range mates) generated by proptest, plus one image of 65537 / 131101 / 262147 / 4194307 (thorough: 8300401) pixels per curve and direction, plus a strided (quick) or complete (thorough) enumeration of all f32 in [0,1] in blocks of 65536; each value compared with the f64 defining formula (tol 2.5e-4; PQ to_gamma 5.7e-4; builds without fastmath 5e-5), Linear and BT.1886 aliases compared bitwise; non-trivial = batch containing a value strictly inside (0,1); distinct = by hash of (curve, direction, value bits)";
